@@ -65,10 +65,21 @@ def random_cases(n, rng):
 
 
 def judge(rep, obs_path, wd, label):
-    res = tlc("trace/ResolveTrace", workers=8, timeout=1800, env={"OBS": obs_path})
-    tlc_ok(res, "ResolveTrace(%s)" % label)
-    verdicts = res.tagged("VERDICT")
-    obs = {o["id"]: o for o in read_ndjson(obs_path)}
+    # judged in pieces of 40 000 observations: one TLC run per piece keeps each run short whatever the load of the machine
+    allobs = read_ndjson(obs_path)
+    verdicts, res = [], None
+    for k in range(0, max(len(allobs), 1), 40000):
+        part = os.path.join(wd, "%s-judge%d.ndjson" % (label, k // 40000))
+        write_ndjson(part, allobs[k:k + 40000])
+        r = tlc("trace/ResolveTrace", workers=8, timeout=3000, env={"OBS": part})
+        tlc_ok(r, "ResolveTrace(%s/%d)" % (label, k // 40000))
+        verdicts += r.tagged("VERDICT")
+        if res is None:
+            res = r
+        else:
+            res.distinct += r.distinct
+            res.generated += r.generated
+    obs = {o["id"]: o for o in allobs}
     if len(verdicts) != len(obs):
         raise vlib.ToolError("ResolveTrace judged %d of %d observations" % (len(verdicts), len(obs)))
     nconv = 0
